@@ -9,7 +9,9 @@ import (
 // lone braces, percent signs, quotes, backslashes, line breaks, dashes).
 var litAlphabet = []string{
 	"a", "b", "Z", "0", " ", " ", "\n", "\t", "\r", "{", "}", "%", "#", "-", "\\", "\"", "'", "<", ">", "&",
-	"\x00", "é", "世", "😀", "\x80", "\xff", "\xc3", "|", "=", ".", " ", " ",
+	"\x00", "é", "世", "😀", "\x80", "\xff", "\xc3", "|", "=", ".", " ", " ",
+	// control bytes and non-ASCII spaces are literal text, not trimmable whitespace
+	"\x00", "\x01", "\x0b", "\x0c", "\x1f", "\x7f", "\u00a0", "\u2028",
 }
 
 func isLit(s string) bool {
